@@ -81,19 +81,42 @@ func runC13(p *Program, r *Result) {
 		// the entry tests are R06.6(f); repeated here for the writer only
 		for _, fn := range []*ssa.Function{write, cls} {
 			ftb := p.TB(fn)
-			entry := fn.Blocks[0]
-			ifi, isIf := entry.Instrs[len(entry.Instrs)-1].(*ssa.If)
+			// the test of the remembered error comes before anything is done: it may be preceded by
+			// other refusals (an "already closed" flag), not by calls or stores
 			ok := false
-			if isIf {
+			for _, blk := range fn.Blocks {
+				ifi, isIf := blk.Instrs[len(blk.Instrs)-1].(*ssa.If)
+				if !isIf {
+					continue
+				}
 				a := ftb.atomOf(Guard{If: ifi, Cond: ifi.Cond, Pol: true})
-				if a.Kind == "cmp" && a.Op == "!=" && a.Y.Op == "Nil" && short(a.X.String()) == "Field(Recv.err)" {
-					// the true edge returns that error
-					for _, in := range entry.Succs[0].Instrs {
-						if ret, isRet := in.(*ssa.Return); isRet {
-							ei := errorResultIndex(fn.Signature)
-							ok = short(ftb.Term(ret.Results[ei]).String()) == "Field(Recv.err)"
+				if !(a.Kind == "cmp" && a.Op == "!=" && a.Y.Op == "Nil" && strings.HasPrefix(short(a.X.String()), "Field(Recv.err")) {
+					continue
+				}
+				returnsIt := false
+				for _, in := range blk.Succs[0].Instrs {
+					if ret, isRet := in.(*ssa.Return); isRet {
+						ei := errorResultIndex(fn.Signature)
+						returnsIt = strings.HasPrefix(short(ftb.Term(ret.Results[ei]).String()), "Field(Recv.err")
+					}
+				}
+				if !returnsIt {
+					continue
+				}
+				quiet := true
+				vis := p.Reach([]Loc{blockStart(fn.Blocks[0])}, func(in ssa.Instruction) bool { return in == ssa.Instruction(ifi) })
+				for in := range vis {
+					switch x := in.(type) {
+					case *ssa.Store:
+						quiet = false
+					case ssa.CallInstruction:
+						if n := calleeName(x.Common()); !strings.HasPrefix(n, "builtin len") {
+							quiet = false
 						}
 					}
+				}
+				if quiet {
+					ok = true
 				}
 			}
 			r.Check(ok, fn.String(), "entry:sticky", "", "first action: if w.err != nil { return w.err }", "the method does not start by returning the remembered error")
